@@ -114,6 +114,23 @@ class NoTermination(Exception):
     pass
 
 
+def forced_break_inside_annotation(t, inside=False):
+    k = t[0]
+    if k in ('hard', 'ab') and inside:
+        return True
+    if k == 'ann':
+        return forced_break_inside_annotation(t[2], True)
+    if k in ('cat', 'fill'):
+        return any(forced_break_inside_annotation(x, inside) for x in t[1])
+    if k in ('nest', 'hang'):
+        return forced_break_inside_annotation(t[2], inside)
+    if k in ('grp', 'ab', 'align'):
+        return forced_break_inside_annotation(t[1], inside)
+    if k == 'fc':
+        return forced_break_inside_annotation(t[1], inside) or forced_break_inside_annotation(t[2], inside)
+    return False
+
+
 def strip_annotations(t):
     k = t[0]
     if k == 'ann':
@@ -152,8 +169,12 @@ def oracle(case):
         return core.viol('not-a-layout', 'stream %r is no layout of %s (w=%s frac=%s %s)' % (
             stream, core.canonical(t)[:500], case['w'], case['frac'], case['strategy']))
     raw = refsem.stream_text(stream, sdoctypes)
-    if 'ann' in docterm.kinds(t):
+    if 'ann' in docterm.kinds(t) and not forced_break_inside_annotation(t):
         # "annotations never change the text": the same document without its annotations lays out to the same text
+        # (not judged where an annotation wraps a hardline / always_break: normalisation hoists a forced break through
+        # concat / nest / group but not through annotate, so the look-ahead of an earlier group meets it in one case
+        # and not in the other - both layouts are denoted ones, and C06 allows the break "if a forced-break document
+        # starts later on that same line")
         try:
             bare, _ = layout(dict(case, t=strip_annotations(t), pre=[]))
         except Exception as e:
